@@ -67,7 +67,7 @@ def le_value(E, st, zs):
 
 def i2osp_value(E, st, x, n, little=False):
     """caller guarantees 0 <= x < 256**n"""
-    if isinstance(n, int) and n <= 16:
+    if isinstance(n, int) and n <= E.options.get('i2osp_explicit_max', 16):
         if n == 0:
             return z3.Empty(BYTES)
         units = [z3.Unit(z3.Int2BV((x / (256 ** (n - 1 - i))) % 256, 8)) for i in range(n)]
